@@ -4,7 +4,7 @@
 
 package file
 
-//@ pure func plainFileName(s string) bool = s != "." && s != ".." && in_re(s, "^[a-zA-Z0-9_.-]+$")
+//@ opaque func plainFileName(s string) bool = s != "." && s != ".." && in_re(s, "^[a-zA-Z0-9_.-]+$")
 
 //@ func IsValidFileName
 //@ props C09 C13
